@@ -1,10 +1,89 @@
-"""C02 bounded layer: whole-run scenarios (see rtc/solver_runs.py)"""
+"""C02 bounded layer: whole-run scenarios (see rtc/solver_runs.py) and ensembles driven step-wise"""
+import random
 from .solver_runs import run_prop, replay_prop
+from .common import Result, pmap, seed_all, jsonable, Recorder, COSTS
+
+
+_CALLS, _F = [], None
+
+
+def _cost(x):
+    p = tuple(float(v) for v in x)
+    _CALLS.append(p)
+    return _F(p)
+
+
+def _ensemble(sc):
+    """an ensemble driven with Step(); strict ranges installed before the first step, or CHANGED after k steps (members
+    exist by then).  Returns the first cost call outside the box in force at the time of the call, or None."""
+    import mystic.solvers as ms
+    from mystic.termination import VTR
+    seed_all(sc['seed'])
+    n = sc['ndim']
+    # the ensemble copies its nested solver (and the cost it carries) with dill: a closure or a recorder object would be
+    # copied BY VALUE and the members' calls lost; a module-level function is copied by reference
+    global _F
+    del _CALLS[:]
+    _F = COSTS[sc['cost']]
+    calls, cost = _CALLS, _cost
+    s = (ms.LatticeSolver(n, nbins=(2,) + (1,) * (n - 1)) if sc['kind'] == 'lattice' else ms.BuckshotSolver(n, npts=3))
+    s.SetNestedSolver(getattr(ms, sc['nested']))
+    s.SetStrictRanges([-3.0] * n, [3.0] * n)
+    box = ([-3.0] * n, [3.0] * n)
+    s.SetTermination(VTR(-1e300))
+    s.SetEvaluationLimits(generations=10 ** 6, evaluations=10 ** 7)
+    s.SetObjective(cost)
+    for k in range(sc['nsteps']):
+        if sc['change_at'] == k:
+            box = ([0.0] * n, [1.0] * n)
+            s.SetStrictRanges(*box)
+        n0 = len(calls)
+        s.Step()
+        for p in calls[n0:]:
+            if any(t < box[0][i] or t > box[1][i] for i, t in enumerate(p)):
+                return 'step %d: cost called at %r, box in force %r..%r' % (k, list(p), box[0], box[1])
+    return None
+
+
+def _work(sc):
+    res = Result('', '')
+    try:
+        bad = _ensemble(sc)
+    except Exception as e:      # noqa -- harness / scenario failure is not a violation of C02
+        res.extra['ensemble_aborted'] = res.extra.get('ensemble_aborted', 0) + 1
+        return res.part()
+    res.case('ensemble-step|%s|%s|%s' % (sc['kind'], sc['nested'], 'changed' if sc['change_at'] is not None else 'from-start'), True)
+    if bad:
+        # known sub-case (F46): ranges changed on the ensemble after its members exist are not handed to them
+        sub = '#ranges-changed-after-members-exist' if sc['change_at'] is not None else ''
+        res.violation('C02/bounded/ensemble-step/evaluated-outside-box' + sub, bad, jsonable(sc))
+    return res.part()
+
+
+def _scenarios(tier, seed):
+    rng = random.Random(seed * 7919 + 2)
+    out = []
+    for i in range(8 if tier == 'quick' else 60):
+        out.append(dict(kind=rng.choice(['lattice', 'buckshot']), nested=rng.choice(['NelderMeadSimplexSolver', 'PowellDirectionalSolver']),
+                        ndim=rng.choice([2, 3]), cost=rng.choice(sorted(COSTS)), nsteps=rng.choice([6, 10]),
+                        change_at=rng.choice([None, None, 2, 4]), seed=rng.randrange(10 ** 6), family='ensemble-step'))
+    return out
 
 
 def run(tier='quick', seed=0):
-    return run_prop('C02', tier, seed)
+    out = run_prop('C02', tier, seed)
+    res = Result('', '')
+    for part in pmap(_work, _scenarios(tier, seed)):
+        res.merge(part)
+    out['evaluations'] += res.evaluations
+    out['distinct_nontrivial'] += len(res.distinct)
+    out['violations'] += res.violations
+    out['rule'] += ('; ensembles (lattice / buckshot over NM / Powell) driven with Step(), strict ranges from the start or changed '
+                    'after 2 / 4 steps: no cost call outside the box in force at the time of the call')
+    return out
 
 
 def replay(inp):
+    if inp.get('family') == 'ensemble-step':
+        return not _work(inp)['violations']
     return replay_prop('C02', inp)
